@@ -10,6 +10,8 @@ import (
 
 	"mosn.io/api"
 	v2 "mosn.io/mosn/pkg/config/v2"
+	"mosn.io/mosn/pkg/protocol"
+	"mosn.io/mosn/pkg/router"
 	"mosn.io/mosn/pkg/types"
 	"mosn.io/mosn/pkg/upstream/cluster"
 	"mosn.io/mosn/pkg/verifhook"
@@ -80,6 +82,11 @@ func RunLB(s *sim.Sim, prop string, uniq string) *LB {
 	time.Sleep(time.Duration(1+ch.Pick("params", "clockskew", 1000)) * time.Microsecond)
 	cluster.VerifReseedRR(time.Now().UnixNano())
 	if prop == "C06" {
+		if ch.Chance("params", "weightedclusters", 1, 3) {
+			w.Policy = "route_weighted_clusters"
+			w.runWeightedClusters()
+			return w
+		}
 		w.Policy = "LB_WEIGHTED_ROUNDROBIN"
 		w.runWRR()
 		return w
@@ -487,4 +494,110 @@ func (w *LB) runWRR() {
 		sig = append(sig, h.Weight())
 	}
 	s.SigAdd(fmt.Sprint("wrr", sig, unhealthy, len(idx) > 100))
+}
+
+
+// ---------- C06 (i): a route's weighted clusters under every value of the random draw ----------
+//
+// The draw is the only randomness of the selection; it goes through verifhook.Draw, so the
+// simulator can play every value of [0,total) — and the extremes first. For each value the
+// selection is repeated (the clusters are stored in a Go map: its iteration order is the
+// "order in which clusters happen to be stored" and differs from call to call). Oracle: the
+// outcome is a function of the draw alone, the number of draw values that select a cluster is
+// exactly its weight, and a zero-weight cluster is selected by none.
+func (w *LB) runWeightedClusters() {
+	s, ch := w.S, w.S.Ch
+	n := 2 + ch.Pick("work", "nclusters", 4)
+	var wcs []v2.WeightedCluster
+	total := 0
+	weights := map[string]int{}
+	for i := 0; i < n; i++ {
+		wt := pickFrom(ch, "work", "cweight", []int{0, 0, 1, 1, 2, 5, 10, 33, 50, 90, 100})
+		name := fmt.Sprintf("wc%d", i)
+		wcs = append(wcs, v2.WeightedCluster{Cluster: v2.ClusterWeight{ClusterWeightConfig: v2.ClusterWeightConfig{Name: name, Weight: uint32(wt)}}})
+		weights[name] = wt
+		total += wt
+	}
+	if total == 0 {
+		wcs[0].Cluster.Weight = 7
+		weights["wc0"], total = 7, 7
+	}
+	rc := &v2.RouterConfiguration{RouterConfigurationConfig: v2.RouterConfigurationConfig{RouterConfigName: "wr" + w.uniq}}
+	rc.VirtualHosts = []v2.VirtualHost{{Name: "vh", Domains: []string{"*"}, Routers: []v2.Router{{RouterConfig: v2.RouterConfig{
+		Match: v2.RouterMatch{Prefix: "/"},
+		Route: v2.RouteAction{RouterActionConfig: v2.RouterActionConfig{WeightedClusters: wcs}},
+	}}}}}
+	rs, err := router.NewRouters(rc)
+	if err != nil || rs == nil {
+		s.Violate("C06", "weighted_route_rejected", "router with weighted clusters %v was rejected: %v", weights, err)
+		return
+	}
+	ctx := variable.NewVariableContext(context.Background())
+	_ = variable.SetString(ctx, types.VarPath, "/x")
+	rt := rs.MatchRoute(ctx, protocol.CommonHeader(map[string]string{}))
+	if rt == nil || rt.RouteRule() == nil {
+		s.Violate("C06", "weighted_route_rejected", "no route matched on a router with one prefix route")
+		return
+	}
+	var draw int
+	verifhook.DrawFunc = func(site string, n int, orig int) int {
+		if site != "router.weighted_cluster" {
+			return orig
+		}
+		if n != total {
+			s.Violate("C06", "draw_range", "the cluster draw is taken from [0,%d), the weights %v sum to %d", n, weights, total)
+		}
+		return draw
+	}
+	defer func() { verifhook.DrawFunc = nil }()
+	counts := map[string]int{}
+	order := []int{0}
+	if total > 1 {
+		order = append(order, total-1)
+	}
+	for v := 1; v < total-1; v++ {
+		order = append(order, v)
+	}
+	reps := 64
+	stable := true // does the same draw always select the same cluster (i.e. is the storage order fixed)?
+	for _, v := range order {
+		draw = v
+		first := ""
+		for k := 0; k < reps; k++ {
+			c := rt.RouteRule().ClusterName(ctx)
+			if k == 0 {
+				first = c
+				counts[c]++
+			} else if c != first {
+				stable = false
+			}
+			if wt, ok := weights[c]; !ok {
+				s.Violate("C06", "unknown_cluster_selected", "weights %v, draw %d: selected %q", weights, v, c)
+				return
+			} else if wt == 0 {
+				s.Violate("C06", "zero_weight_cluster_selected", "weights %v, draw %d of %d: the zero-weight cluster %s was selected", weights, v, total, c)
+				return
+			}
+		}
+	}
+	// With a fixed storage order the selection is a function of the draw, and then exactly weight_i of
+	// the total draw values must select cluster i. (With an order that changes from call to call — a Go
+	// map — the shares of single calls cannot be counted; only the zero-weight clause is decided.)
+	if stable {
+		for name, wt := range weights {
+			if counts[name] != wt {
+				s.Violate("C06", "cluster_share_not_weight", "weights %v: %d of the %d possible draws select %s, its weight is %d (shares %v)", weights, counts[name], total, name, wt, counts)
+				return
+			}
+		}
+		w.Stats["cluster_share_checks"]++
+	} else {
+		w.Stats["cluster_order_varied"]++
+	}
+	w.Stats["cluster_draws"] = total * reps
+	var sig []int
+	for i := 0; i < n; i++ {
+		sig = append(sig, weights[fmt.Sprintf("wc%d", i)])
+	}
+	s.SigAdd(fmt.Sprint("wc", sig))
 }
